@@ -26,9 +26,14 @@ def load_check(cid: str) -> Any:
     return mod.CHECK
 
 
-def _init(cid: str, tier: str) -> None:
-    global _CHECK, _TIER
+_STOP: Any = None
+
+
+def _init(cid: str, tier: str, stop: Any = None) -> None:
+    global _CHECK, _TIER, _STOP
     import gc
+
+    _STOP = stop
 
     gc.disable()
     _CHECK = load_check(cid)
@@ -37,6 +42,8 @@ def _init(cid: str, tier: str) -> None:
 
 def _work(unit: Any) -> dict:
     t = time.time()
+    if _STOP is not None and _STOP.value:
+        return {"skipped_unit": 1}
     try:
         s = _CHECK.work(unit, _TIER)
     except BaseException as e:  # noqa: BLE001
@@ -108,13 +115,18 @@ def run_check(cid: str, tier: str, seed: int, jobs: int | None = None) -> int:
         # once n units have reported violations; such a run is not exhaustive and says so (capped)
         stop_after = int(os.environ.get("VERIF_STOP_AFTER", "0") or 0)
         results = []
-        with ctx.Pool(jobs, initializer=_init, initargs=(cid, tier)) as pool:
+        stop = ctx.Value("b", 0) if stop_after else None
+        skipped = 0
+        with ctx.Pool(jobs, initializer=_init, initargs=(cid, tier, stop)) as pool:
             for r in pool.imap_unordered(_work, units, chunksize=chunk):
+                if r.get("skipped_unit"):
+                    skipped += 1
+                    continue
                 results.append(r)
-                if stop_after and sum(1 for x in results if x.get("violations")) >= stop_after:
-                    pool.terminate()
-                    results.append({"capped": True, "extra": {"stopped_early_units_skipped": len(units) - len(results)}})
-                    break
+                if stop is not None and not stop.value and sum(1 for x in results if x.get("violations")) >= stop_after:
+                    stop.value = 1  # the workers return at once for every unit they have not begun
+        if skipped:
+            results.append({"capped": True, "extra": {"stopped_early_units_skipped": skipped}})
 
     results = pre_results + results
     n_units = len(units) + len(main_units)
